@@ -15,7 +15,7 @@ from TexSoup import TexSoup
 
 ATOMS = ['\\begin{a}', '\\end{a}', '\\item', '\\x', '\\left(', '\\\\', '\\newcommand', '\\begin{verbatim}',
          '\\end{verbatim}', '{', '}', '[', ']', '$', '%', 'a', ' ', '\n', '\\', '*', '\\[', '\\]', '$$', '\\begin{equation}',
-         '\\end{equation}', '\\begin', '\\end', '(', '\\%', '\x00', '%c\n', '\\end {a}', '\\begin{ a}', '\\begin[a]']
+         '\\end{equation}', '\\begin', '\\end', '(', '\\%', '\x00', '%c\n', '\\end {a}', '\\begin{ a}', '\\begin[a]', '\r', '\t']
 SMALL = ['\\begin{a}', '\\end{a}', '\\x', '{', '}', '[', ']', '$', '%', 'a', ' ', '\n', '\\', '%c\n']
 ALLOWED = (EOFError, TypeError, AssertionError)
 PROP = None
@@ -67,8 +67,9 @@ def finding_class(s):
         return 'D5'
     if re.search(r'\\begin\s*\[', s):
         return 'D6'
-    if re.search(r'\\begin\s*\{\s+[^}]*\}', s) or re.search(r'\\begin\s*\{[^}]*\s+\}', s):
-        return 'D17'
+    if re.search(r'\\begin\s*\{\s+[^}]*\}', s) or re.search(r'\\begin\s*\{[^}]*\s+\}', s) or \
+            re.search(r'\\begin\s*\{\s', s) or re.search(r'\\begin\s*\{[^}]*\s$', s):
+        return 'D17'     # (also when the name group is left open: the tolerant parser closes it and strips the name)
     return None
 
 
@@ -90,11 +91,23 @@ def check(s):
         return out
     soup, err = parse(s, 0)
     if PROP == 'C07':
+        t, e1 = parse(s, 1)
         if soup is not None:
-            t, e1 = parse(s, 1)
             if t is None or str(t) != str(soup) or shape(t) != shape(soup):
                 out.append(('tolerant-differs', 'strict parse of %r succeeds but the tolerant one gives %r'
                             % (s, None if t is None else str(t))))
+        # clause 3: a tolerant result is the input plus inserted closers (whitespace before a group is C08's subject)
+        if t is not None and clean and not re.search(r'\s[{\[]', s) and finding_class(s) is None and \
+                not only_closers_inserted(s, str(t)):
+            out.append(('tolerant-output-not-input-plus-closers', 'TexSoup(%r, tolerance=1) prints %r' % (s, str(t))))
+        # clause 2: a well-formed document that lost one closer
+        kind = LOST.get(s)
+        if kind is not None:
+            if t is None:
+                out.append(('lost-closer-not-tolerated', 'tolerant parsing of %r (lost %s) raises %s'
+                            % (s, kind, type(e1).__name__)))
+            if soup is not None and not kind.startswith("']'"):
+                out.append(('lost-closer-accepted-by-strict', 'strict parsing accepts %r (lost %s)' % (s, kind)))
         return out
     if soup is None or not clean:
         return out
@@ -117,6 +130,57 @@ def check(s):
         elif shape(s2) != shape(soup):
             out.append((fc or 'shape-drift', 'tree of %r and of its output %r differ' % (s, o)))
     return out
+
+
+LOST = {}       # broken document -> which closer it lost (filled before the sweep forks)
+_END = re.compile(r'\\end\{[A-Za-z*]+\}')
+_ENDANY = re.compile(r'\\end\{[^{}\\]*\}')       # an inserted \end{name}; the name may be empty or non-alphabetic
+_NAME = re.compile(r'\\(?:begin|end)\{[A-Za-z*]+\}')
+C07_DOCS = ['\\newcommand{\\hi}[1]{Hello \\textbf{you}}', '\\begin{doc}\\cmd{r}[o]{q \\emph{x}} tail\\end{doc}',
+            '\\begin{doc}\\emph{\\includegraphics{fig}[width=3cm]} and more\\end{doc}', '\\foo[a]{b}c', '{\\bf a} b',
+            '\\begin{a}\\begin{b}x\\end{b}y\\end{a}', '\\x{a}[b]{c}{d} e', '\\section{A \\emph{b}}\\label{s} text',
+            '\\begin{a}{arg}\\y[o]{\\z{1}{2}}\\end{a}', '\\renewcommand{\\w}[2][d]{\\emph{#1}{#2}}', 'a{b{c}d}e',
+            '\\begin{a}\\x{1}\\end{a}\\begin{b}\\y[2]\\end{b}']
+
+
+def only_closers_inserted(src, out):
+    """out is src with some `}`, `]`, `\\end{name}` inserted"""
+    import functools
+    sys.setrecursionlimit(10000)
+
+    @functools.lru_cache(maxsize=None)
+    def go(i, j):
+        if j == len(out):
+            return i == len(src)
+        if i < len(src) and src[i] == out[j] and go(i + 1, j + 1):
+            return True
+        if out[j] in '}]' and go(i, j + 1):
+            return True
+        if out.startswith('\\end{', j):       # an inserted \end{name}: the name is whatever the opening's argument printed
+            d, k = 0, j + 4
+            while k < len(out):
+                d += out[k] == '{'
+                d -= out[k] == '}'
+                k += 1
+                if d == 0:
+                    return go(i, k)
+        return False
+    if len(src) * len(out) > 40000:
+        return True
+    return go(0, 0)
+
+
+def lost_closer_cases():
+    """every single-closer deletion of the well-formed documents C07_DOCS (closers of \\begin{name} / \\end{name}
+    themselves are not argument closers and stay)"""
+    for doc in C07_DOCS:
+        in_name = {m.end() - 1 for m in _NAME.finditer(doc)}
+        for i, ch in enumerate(doc):
+            if ch in '}]' and i not in in_name:
+                LOST[doc[:i] + doc[i + 1:]] = '%r at %d of %r' % (ch, i, doc)
+        for m in _END.finditer(doc):
+            LOST[doc[:m.start()] + doc[m.end():]] = '%s of %r' % (m.group(), doc)
+    return list(LOST)
 
 
 def wellformed_hint(s):
@@ -152,6 +216,12 @@ def cases(tier, rnd):
             '\\x[o]{r}{s} t', '{\\bf a}', '\\begin{equation}\\left(a\\right)\\end{equation}']
     out += ['\\begin{a}x\\end {a}y', '\\begin{\\x}x\\end{\\x}', '\\begin[x]{a}b\\end{x}', '\\begin{ a}x\\end{a}',
             '\\begin{a }x\\end{a}', '\\begin{}\\end{}', '\\begin{[tex]}x\\end{[tex]}y']
+    # argument lists: every sequence of <= 4 groups (repeats included) after a command and after \begin{a}
+    groups = ['{a}', '[a]', '{b}', '[b]', ' {a}', '\n[a]']
+    for n in range(1, 5):
+        for t in itertools.product(groups, repeat=n):
+            out.append('\\x' + ''.join(t) + ' y')
+            out.append('\\begin{a}' + ''.join(t) + 'z\\end{a}')
     for d in docs:
         out.append(d)
         for k in range(len(d)):
@@ -159,6 +229,8 @@ def cases(tier, rnd):
             out.append(d[:k] + d[k + 1:])        # every single-character deletion
     for _ in range(2000 if tier == 'quick' else 40000):
         out.append(''.join(rnd.choice(ATOMS) for _ in range(rnd.randrange(5, 14))))
+    if PROP == 'C07':
+        out += C07_DOCS + lost_closer_cases()
     return out
 
 
